@@ -527,3 +527,36 @@ if __name__ == "__main__":
                     net = fac()
                     names = [s.name for s in net.species]
                 print(json.dumps(names))
+
+
+def oracle_alias_distinct(prop):
+    """bounded check of the contract the ODE properties assume of Species.alias: on one network, different species have different
+    aliases (one IDX_ macro and one state slot each) - excited / labelled / charged / ice forms next to their plain forms"""
+    def oracle(tier, seed):
+        viol, cases = [], 0
+        extra = [("excited-next-to-ground", lambda: _plain_net([(["H2*", "H"], ["H2", "H"]), (["H2*"], ["H2"]), (["CO*", "H2"], ["CO", "H2*"])])),
+                 ("labels-next-to-plain", lambda: _plain_net([(["c-C3H2", "H"], ["C3H2", "H"]), (["l-C3H2"], ["c-C3H2"]), (["oH2", "pH2"], ["H2", "H2"])])),
+                 ("charge-ladder", lambda: _plain_net([(["C-", "e-"], ["C--"]), (["C+", "e-"], ["C"]), (["C++", "e-"], ["C+"]), (["GRAIN-", "e-"], ["GRAIN--"]), (["GRAIN0", "e-"], ["GRAIN-"])]))]
+        for label, fac in list(c09_networks()) + extra:
+            try:
+                net = fac()
+                species = list(net.species)
+            except Exception as e:
+                viol.append({"property": prop, "network": label, "what": f"network-raises: {type(e).__name__}: {e}", "signature": f"{prop}:{label}:network-raises"})
+                continue
+            cases += 1
+            seen = {}
+            for sp in species:
+                if sp.alias in seen and seen[sp.alias] != sp.name:
+                    viol.append({"property": prop, "network": label, "what": f"alias-collision: {seen[sp.alias]} and {sp.name} are different species of one network and both get the alias {sp.alias} (one IDX_ macro, one state slot)",
+                                 "signature": f"{prop}:{label}:alias-collision"})
+                seen.setdefault(sp.alias, sp.name)
+        return {"cases": cases, "distinct": cases, "violations": viol, "samples": [{"networks": [l for l, _ in extra]}],
+                "bound": f"{cases} small networks with plain / excited / labelled / charged / ice forms side by side", "rule": "one network is one case"}
+    return oracle
+
+
+def _plain_net(reacs):
+    from naunet.network import Network
+    fresh_species_state()
+    return Network([mk_reaction(*r) for r in reacs])
